@@ -135,6 +135,21 @@ STATEFUL = {
     "lamtwice": ("{{ products | where: x => x.meta.n == x.meta.n | map: i => i.meta.n | join: ',' }}"
                  "|{% assign hit = products | find: it => it.meta.n >= it.meta.n %}{{ hit.meta.n }}",
                  lambda now, d: ",".join(str(i) for i in range(len(d["products"]))) + "|" + ("0" if d["products"] else "")),
+    "wsctl": ("a  {%- if true -%}  b  {%- endif -%}  c {{- 'd' -}}  e {%~ assign x = 1 ~%}\n f {{~ s | size ~}} \n g{% if false -%} h {%- endif %}  i",
+              lambda now, d: None),
+    # first-render races (lazily built per-template / per-node state) and filter instances shared
+    # by every render of an environment: programs whose result differs with the data
+    "static": ("Just text,\n  nothing to evaluate: {not} { % even % } this.\n",
+               lambda now, d: "Just text,\n  nothing to evaluate: {not} { % even % } this.\n"),
+    "casestr": ("{% case s %}{% when 'alpha' %}A{% when 'beta', 'Gamma' %}BG{% when 'delta' %}D{% else %}E{% endcase %}"
+                "|{% case t %}{% when 'alpha' %}a{% when 'beta' %}b{% when 'Gamma' %}g{% when 'delta' %}d{% endcase %}",
+                lambda now, d: {"alpha": "A", "beta": "BG", "Gamma": "BG", "delta": "D"}.get(d["s"], "E") + "|"
+                + {"alpha": "a", "beta": "b", "Gamma": "g", "delta": "d"}.get(d["t"], "")),
+    "jsonindent": ("{{ nums | json }}|{{ nums | json: 2 }}|{{ nums | json }}|{{ unsorted | json: 1 }}",
+                   lambda now, d: "|".join([json.dumps(d["nums"]), json.dumps(d["nums"], indent=2), json.dumps(d["nums"]),
+                                            json.dumps(d["unsorted"], indent=1)])),
+    "striphtml": ("{{ '<b>' | append: s | append: '</b> <i>' | append: t | append: '</i>' | strip_html }}|{{ '<p>fixed</p> text' | strip_html }}",
+                  lambda now, d: None),
 }
 NEEDS_PARTIALS = {"inherit", "incpart", "renpart", "nowparts", "nowblock", "macrorender"}
 
@@ -464,6 +479,7 @@ class World:
         self.counters: dict[str, int] = {}
         self.memo: dict[str, tuple] = {}
         self.tdecisions: dict[str, list] = {}
+        self.thread_handles = 0
         self.trace: list = []
         self.pristine: PristineRef | None = None
         self.last_data = None
@@ -976,6 +992,7 @@ def do_tpar(w: World, step: dict) -> None:
     from sim import threads as simthreads
 
     prepared = []
+    judged: list[dict] = []
     for tk in step["tasks"]:
         hid = tk["h"]
         if hid not in w.hspec:
@@ -985,11 +1002,27 @@ def do_tpar(w: World, step: dict) -> None:
         if st is None or st[0] != "ok":
             return
         d, _ = w.data(tk["data"], None, "d")
-        prepared.append((st[1], d))
+        h = w.hspec[hid]
+        if tk.get("parse") and h.get("how") == "parse":
+            # the thread parses the source itself (the environment's parser and lexer are shared)
+            env = w.shared.envs[h["env"]]
+            prepared.append(((env, h["src"], h.get("name", ""), _copy(h.get("globals"))), d))
+            # its reference is a parse under the configuration as of NOW: a handle of its own
+            w.thread_handles += 1
+            nh = 100_000 + w.thread_handles
+            w.hspec[nh] = dict(h)
+            w.env_events[h["env"]].append(("obtain", nh))
+            tk = dict(tk, h=nh)
+        else:
+            prepared.append((st[1], d))
+        judged.append(tk)
 
     def mk(t, d):
         def fn():
             try:
+                if isinstance(t, tuple):
+                    env, src, name, g = t
+                    return ("ok", common.norm(env.from_string(src, name=name, globals=g).render(**d)))
                 return ("ok", common.norm(t.render(**d)))
             except Inconclusive:
                 raise
@@ -1009,7 +1042,7 @@ def do_tpar(w: World, step: dict) -> None:
     w.count("thread_line_events", sim.line_events)
     if sim.preemptions:
         w.count("thread_batches_interleaved")
-    for i, tk in enumerate(step["tasks"]):
+    for i, tk in enumerate(judged):
         r = res[i]
         if r[0] == "exc":
             raise r[1]
@@ -1377,17 +1410,57 @@ def gen_plan(seed: int, tier: str) -> dict:
                           "mode": rng.choice("sa"), "data": data_spec()})
     # caller threads (own random stream: earlier plans keep their shape)
     rng4 = random.Random(f"c09t:{seed}")
-    if rng4.random() < 0.12:
-        for _ in range(rng4.choice([1, 1, 2])):
+    if rng4.random() < 0.3:
+        for _ in range(rng4.choice([1, 2, 3])):
             ei = rng4.choice(sorted({e for _, e in handles}))
             hs = [h for h, e in handles if e == ei]
-            same = rng4.choice(hs)
-            tasks = [{"h": same if rng4.random() < 0.6 else rng4.choice(hs),
-                      "data": {**data_spec(), "seed": rng4.randrange(1 << 30)}} for _ in range(rng4.choice([2, 2, 3]))]
-            need = {t["h"] for t in tasks}
-            lo = 1 + max(i for i, st in enumerate(steps) if st["op"] in ("parse", "get") and st.get("h") in need)
+            first_render = rng4.random() < 0.5 and not envs[ei].get("default_global")
+            if first_render:
+                # threads meet on a template nobody has rendered yet (lazily built per-node state)
+                cands = [st for st in steps if st["op"] == "parse" and st.get("h") in hs and st.get("prog") != "bad"]
+                src_step = rng4.choice(cands) if cands else None
+                if src_step is None:
+                    first_render = False
+                elif rng4.random() < 0.4:
+                    # ... or on a small program parsed for the occasion
+                    pr = rng4.choice(["static", "casestr", "jsonindent", "striphtml", "lamtwice", "counters"])
+                    src_step = {"op": "parse", "env": ei, "src": STATEFUL[pr][0], "prog": pr, "_new": True}
+            if first_render:
+                h2 = len(handles)
+                pstep = {k: v for k, v in {**src_step, "id": nid(), "h": h2}.items() if k != "_new"}
+                handles.append((h2, ei))
+                same = h2
+            else:
+                same = rng4.choice(hs)
+            tasks = [{"h": same if (first_render or rng4.random() < 0.6) else rng4.choice(hs),
+                      "data": {**data_spec(), "seed": rng4.randrange(1 << 30)}} for _ in range(rng4.choice([2, 2, 3, 4]))]
+            need = {t["h"] for t in tasks} - ({same} if first_render else set())
+            lo = 1 + max([i for i, st in enumerate(steps) if st["op"] in ("parse", "get") and st.get("h") in need]
+                         + [i for i, st in enumerate(steps) if first_render and st is src_step] + [0])
+            for t in tasks:
+                if rng4.random() < 0.3:
+                    t["parse"] = True
             at = rng4.randrange(lo, len(steps) + 1)
-            steps[at:at] = [{"op": "tpar", "id": nid(), "tasks": tasks}]
+            steps[at:at] = ([pstep] if first_render else []) + [{"op": "tpar", "id": nid(), "tasks": tasks}]
+    if rng4.random() < 0.15:
+        # a "storm": the same small program parsed afresh several times, each time met by 2-3 threads
+        # at once - either on the one fresh Template (first-render races) or each thread parsing
+        # the source itself (the environment's shared parser / lexer / filter instances)
+        cand_envs = [i for i, e in enumerate(envs) if not e.get("default_global")]
+        if cand_envs:
+            ei = rng4.choice(cand_envs)
+            pr = rng4.choice(["static", "casestr", "jsonindent", "striphtml", "lamtwice", "counters", "wsctl", "wsctl"])
+            own_parse = rng4.random() < 0.45
+            at = rng4.randrange(1, len(steps) + 1)
+            block = []
+            for _ in range(rng4.randint(3, 8)):
+                h2 = len(handles)
+                handles.append((h2, ei))
+                block.append({"op": "parse", "id": nid(), "h": h2, "env": ei, "src": STATEFUL[pr][0], "prog": pr})
+                tasks = [{"h": h2, "data": {**data_spec(), "seed": rng4.randrange(1 << 30)}, **({"parse": True} if own_parse else {})}
+                         for _ in range(rng4.choice([2, 2, 3]))]
+                block.append({"op": "tpar", "id": nid(), "tasks": tasks})
+            steps[at:at] = block
     # bounded recovery: every handle rendered once more, unfaulted
     for hid, _ in handles:
         steps.append({"op": "render", "id": nid(), "h": hid, "mode": "s", "data": data_spec()})
